@@ -165,8 +165,8 @@ def run(ctx):
     jobs = []
     for parents in shapes:
         for a in assignments(len(parents), 1, with_indexfile=True):
-            if not any(f.endswith(".cmake") for f in dirmodel.CONTENT[a[0]]):
-                continue
+            if not any(f.endswith(".cmake") for f in dirmodel.CONTENT[a[0]]) and len(parents) > 1:
+                continue        # (a lone directory without any CMake file is kept: nothing may be printed for it)
             for n, (outmode, sname) in enumerate(itertools.product(OUTMODES, SETTINGS)):
                 for recursive in ((True, False) if (outmode == "abs" or not quick) else (True,)):
                     jobs.append(("tree", parents, a, recursive, outmode, sname))
